@@ -448,10 +448,29 @@ class RunCtx:
 
 
 # --------------------------------------------------------- class generation --
+GENERIC_DEFAULT = {"generic_default": 7}
+
+
+def _generic_default(name: str, kwargs: Dict[str, Any], node: Any) -> None:
+    """A generic node is built with ``dependencies_default={'generic_default': 7}``: every invocation gets exactly that extra
+    keyword, and the dict the caller handed to build_node stays what it was (it belongs to the caller, and it is shared by
+    every execution of the node class)."""
+    dflt = getattr(type(node), "_verif_defaults", None)
+    if dflt is None:
+        return
+    rc: RunCtx = CUR.get()
+    got = kwargs.pop("generic_default", None)
+    if got != 7:
+        rc.bad.append(((name, "generic_default"), "missing_or_wrong"))
+    if len(dflt) != 1 or dflt.get("generic_default") != 7:
+        rc.bad.append(((name, "dependencies_default"), "dict_mutated"))
+
+
 def _make_process(name: str, mode: str) -> Any:
     if mode in ("async", "async_tag_inline", "async_tag_process"):
         async def process(self: Any, **kwargs: Any) -> Any:
             rc: RunCtx = CUR.get()
+            _generic_default(name, kwargs, self)
             rc.start(name)
             inv = rc.begin(name, kwargs, self)
             if rc.hold is not None and name in rc.hold:
@@ -462,6 +481,7 @@ def _make_process(name: str, mode: str) -> Any:
     elif mode == "inline":
         def process(self: Any, **kwargs: Any) -> Any:  # type: ignore[misc]
             rc: RunCtx = CUR.get()
+            _generic_default(name, kwargs, self)
             rc.start(name)
             inv = rc.begin(name, kwargs, self)
             return rc.finish(inv, self)
@@ -469,6 +489,7 @@ def _make_process(name: str, mode: str) -> Any:
         def process(self: Any, **kwargs: Any) -> Any:  # type: ignore[misc]
             # start was logged at submission by the executor stub
             rc: RunCtx = CUR.get()
+            _generic_default(name, kwargs, self)
             inv = rc.begin(name, kwargs, self)
             return rc.finish(inv, self)
     return process
@@ -516,7 +537,10 @@ def build_classes(spec: Spec) -> Dict[str, type]:
 
             gbase = type("GenericBase_" + nd.name, (base,), dict(ns, name="generic_" + nd.name))
             attrs = {k: v for k, v in ns.items() if k in ("tags", "attempts", "delay", "exceptions", "use_default")}
-            cls = build_node(gbase, node_name=nd.name, class_name="Generic_" + nd.name, attrs=attrs)
+            dflt = dict(GENERIC_DEFAULT)
+            cls = build_node(gbase, node_name=nd.name, class_name="Generic_" + nd.name, attrs=attrs,
+                             dependencies_default=dflt)
+            cls._verif_defaults = dflt
             classes[nd.name] = cls
             procs[nd.name] = cls.process
         else:
